@@ -297,6 +297,12 @@ fn cmd_check(args: &[String]) -> i32 {
             prop.runs = n;
         }
     }
+    // validation tooling only (tools/sensitivity.sh): run a fraction of the tier's budget
+    if let Ok(d) = std::env::var("FZ_RUNS_DIV") {
+        if let Ok(n) = d.parse::<u64>() {
+            prop.runs = (prop.runs / n.max(1)).max(200);
+        }
+    }
     let seed = seed_from_env();
     let known = load_known("known_findings.json");
     println!("fzsim check {id} tier={tier} VERIF_SEED={seed} runs={} workers={}", prop.runs, workers());
